@@ -76,7 +76,11 @@ def same_position(a, b, tol=1e-7):
 
 def tri_area(a, b, c):
     """Signed solid angle of the spherical triangle (Van Oosterom & Strackee)."""
-    num = det3(a, b, c)
+    # det[a, b, c] = det[a, b - a, c - a]: the differences of nearby unit vectors are exact in floating
+    # point, so the numerator keeps its relative accuracy for very small triangles
+    ba = (b[0] - a[0], b[1] - a[1], b[2] - a[2])
+    ca = (c[0] - a[0], c[1] - a[1], c[2] - a[2])
+    num = dot(a, cross(ba, ca))
     den = 1.0 + dot(a, b) + dot(b, c) + dot(c, a)
     return 2.0 * math.atan2(num, den)
 
